@@ -309,7 +309,13 @@ def check_equality(spec, seed, obs, other_tree=None):
     if not (b == a):
         obs.violation('equality_not_symmetric', case)
     try:
-        ba, bb = a.to_bytes(), b.to_bytes()
+        ba = a.to_bytes()
+        repr(a)
+        # b is still untouched: observing a must not end their equality
+        if not (a == b):
+            obs.violation('observed_tree_differs_from_untouched_twin', case)
+            return
+        bb = b.to_bytes()
         if ba != bb:
             obs.violation('equal_trees_different_bytes', case)
     except Exception:
